@@ -882,12 +882,13 @@ def specHdr (flags : Nat) (h : Hdr) (n : Nat) : Hdr :=
   if fl flags SAMPLE_FLAG_FULLREP ∧ h1.lps = 0 ∧ h1.len > h1.lpe
   then { h1 with flg := setf h1.flg XMP_SAMPLE_LOOP_FULL } else h1
 
-theorem loadCore_closed (flags : Nat) (h : Hdr) (is16 stereo : Bool) (n : Nat) (f buffer raw : Bytes) (consumed : Nat)
-    (hread : readDest flags (n * frameLen is16 stereo) f buffer = some (raw, consumed))
+theorem loadCoreS_closed (flags : Nat) (h : Hdr) (is16 stereo : Bool) (n : Nat) (f : Bytes) (limit : Nat)
+    (buffer raw : Bytes) (consumed : Nat)
+    (hread : readDestS flags (n * frameLen is16 stereo) f limit buffer = some (raw, consumed))
     (hraw : raw.length = n * frameLen is16 stereo) :
-    loadCore flags h is16 stereo (n * frameLen is16 stereo) (n : Int) f buffer =
+    loadCoreS flags h is16 stereo (n * frameLen is16 stereo) (n : Int) f limit buffer =
       .ok (specHdr flags h n) (Spec.withGuards (frameLen is16 stereo) (Spec.pcm flags is16 stereo n raw)) consumed := by
-  unfold loadCore
+  unfold loadCoreS
   simp only [hread, loopSanity_closed, loop_len, Int.toNat_natCast]
   have hc := convert_closed flags is16 stereo n raw hraw
   simp only at hc
@@ -899,6 +900,19 @@ theorem loadCore_closed (flags : Nat) (h : Hdr) (is16 stereo : Bool) (n : Nat) (
   · simp only [hf, if_true, true_and]
   · simp only [hf, if_false, false_and]
     simp
+
+theorem loadCoreS_error (flags : Nat) (h : Hdr) (is16 stereo : Bool) (b : Nat) (len : Int) (f : Bytes) (limit : Nat)
+    (buffer : Bytes) (hread : readDestS flags b f limit buffer = none) :
+    loadCoreS flags h is16 stereo b len f limit buffer = .error := by
+  unfold loadCoreS
+  simp only [hread]
+
+theorem loadCore_closed (flags : Nat) (h : Hdr) (is16 stereo : Bool) (n : Nat) (f buffer raw : Bytes) (consumed : Nat)
+    (hread : readDest flags (n * frameLen is16 stereo) f buffer = some (raw, consumed))
+    (hraw : raw.length = n * frameLen is16 stereo) :
+    loadCore flags h is16 stereo (n * frameLen is16 stereo) (n : Int) f buffer =
+      .ok (specHdr flags h n) (Spec.withGuards (frameLen is16 stereo) (Spec.pcm flags is16 stereo n raw)) consumed :=
+  loadCoreS_closed flags h is16 stereo n f f.length buffer raw consumed hread hraw
 
 /-! ### the read -/
 
@@ -925,22 +939,82 @@ theorem adpcm_read_closed (b : Nat) (table rest : Bytes) (hx : (b + 1) / 2 ≤ r
     rw [this]
     simp
 
+theorem readDestS_noload (flags b : Nat) (f : Bytes) (limit : Nat) (buffer : Bytes)
+    (h : fl flags SAMPLE_FLAG_NOLOAD = true) :
+    readDestS flags b f limit buffer = some (buffer.take b, 0) := by simp [readDestS, h]
+
+theorem readDestS_adpcm (flags b : Nat) (f : Bytes) (limit : Nat) (buffer : Bytes)
+    (h : fl flags SAMPLE_FLAG_NOLOAD = false)
+    (ha : fl flags SAMPLE_FLAG_ADPCM = true) (h16 : 16 ≤ f.length) (hx : (b + 1) / 2 ≤ f.length - 16)
+    (hlim : 16 + (b + 1) / 2 ≤ limit) :
+    readDestS flags b f limit buffer = some (Spec.adpcm b (f.take 16) (f.drop 16), 16 + (b + 1) / 2) := by
+  have m1 : min 16 limit = 16 := by omega
+  have m2 : min ((b + 1) / 2) (limit - 16) = (b + 1) / 2 := by omega
+  have e1 : (f.take 16).length = 16 := by simp; omega
+  have e2 : ((f.drop 16).take ((b + 1) / 2)).length = (b + 1) / 2 := by simp; omega
+  simp [readDestS, h, ha, shr1, m1, m2, e1, e2]
+  exact adpcm_read_closed b _ _ (by simp; omega)
+
+/-- an ADPCM sample whose 16-byte table or packed data is not delivered completely: `goto err2` -/
+theorem readDestS_adpcm_short (flags b : Nat) (f : Bytes) (limit : Nat) (buffer : Bytes)
+    (h : fl flags SAMPLE_FLAG_NOLOAD = false)
+    (ha : fl flags SAMPLE_FLAG_ADPCM = true) (hlim : limit < 16 + (b + 1) / 2) :
+    readDestS flags b f limit buffer = none := by
+  simp only [readDestS, h, ha, shr1, Bool.false_eq_true, if_false, if_true, List.length_take, List.length_drop]
+  split
+  · rfl
+  · split
+    · rfl
+    · exfalso; omega
+
+theorem nth_replicate_zero (n j : Nat) : nth (List.replicate n (0 : UInt8)) j = 0 := by
+  by_cases h : j < n
+  · simp [nth, List.getD_eq_getElem?_getD, List.getElem?_replicate, h]
+  · simp [nth, List.getD_eq_getElem?_getD, List.getElem?_replicate, h]
+
+/-- **Short read, plain sample**: what `hio_read` + `memset` leave in `dest` is the delivered bytes
+    followed by zeros. -/
+theorem readDestS_plain (flags b : Nat) (f : Bytes) (limit : Nat) (buffer : Bytes)
+    (h : fl flags SAMPLE_FLAG_NOLOAD = false)
+    (ha : fl flags SAMPLE_FLAG_ADPCM = false) (hb : b ≤ f.length) :
+    readDestS flags b f limit buffer = some (Spec.shortRaw f b (min b limit), min b limit) := by
+  have e1 : (f.take (min b limit)).length = min b limit := by simp; omega
+  simp only [readDestS, h, ha, Bool.false_eq_true, if_false, e1]
+  congr 2
+  apply ext_nth
+  · simp [Spec.shortRaw, e1]; omega
+  · intro i hi
+    simp only [List.length_append, e1, List.length_replicate] at hi
+    have hib : i < b := by omega
+    rw [Spec.shortRaw, nth_build _ _ _ hib]
+    by_cases hd : i < min b limit
+    · rw [nth_append_left _ _ _ (by rw [e1]; exact hd), nth_take _ _ _ hd]
+      simp [hd]
+    · rw [nth_append_right _ _ _ (by rw [e1]; omega), nth_replicate_zero]
+      simp [hd]
+
+theorem shortRaw_full (f : Bytes) (b d : Nat) (hb : b ≤ f.length) (hd : b ≤ d) : Spec.shortRaw f b d = f.take b := by
+  apply ext_nth
+  · simp [Spec.shortRaw]; omega
+  · intro i hi
+    simp only [Spec.shortRaw, length_build] at hi
+    rw [Spec.shortRaw, nth_build _ _ _ hi, nth_take _ _ _ hi]
+    have : i < d := by omega
+    simp [this]
+
 theorem readDest_noload (flags b : Nat) (f buffer : Bytes) (h : fl flags SAMPLE_FLAG_NOLOAD = true) :
-    readDest flags b f buffer = some (buffer.take b, 0) := by simp [readDest, h]
+    readDest flags b f buffer = some (buffer.take b, 0) := readDestS_noload flags b f _ buffer h
 
 theorem readDest_adpcm (flags b : Nat) (f buffer : Bytes) (h : fl flags SAMPLE_FLAG_NOLOAD = false)
     (ha : fl flags SAMPLE_FLAG_ADPCM = true) (h16 : 16 ≤ f.length) (hx : (b + 1) / 2 ≤ f.length - 16) :
-    readDest flags b f buffer = some (Spec.adpcm b (f.take 16) (f.drop 16), 16 + (b + 1) / 2) := by
-  have e1 : (f.take 16).length = 16 := by simp; omega
-  have e2 : ((f.drop 16).take ((b + 1) / 2)).length = (b + 1) / 2 := by simp; omega
-  simp [readDest, h, ha, shr1, e1, e2]
-  exact adpcm_read_closed b _ _ (by simp; omega)
+    readDest flags b f buffer = some (Spec.adpcm b (f.take 16) (f.drop 16), 16 + (b + 1) / 2) :=
+  readDestS_adpcm flags b f _ buffer h ha h16 hx (by omega)
 
 theorem readDest_plain (flags b : Nat) (f buffer : Bytes) (h : fl flags SAMPLE_FLAG_NOLOAD = false)
     (ha : fl flags SAMPLE_FLAG_ADPCM = false) (hb : b ≤ f.length) :
     readDest flags b f buffer = some (f.take b, b) := by
-  have e1 : (f.take b).length = b := by simp; omega
-  simp [readDest, h, ha, e1]
+  unfold readDest
+  rw [readDestS_plain flags b f _ buffer h ha hb, Nat.min_eq_left hb, shortRaw_full f b b hb (Nat.le_refl _)]
 
 /-! ### whole function -/
 
@@ -960,10 +1034,12 @@ theorem effBytes_mul (a : Bool) (fl need rem : Nat) (hfl : 0 < fl) :
   rw [Nat.mul_div_cancel _ hfl]
 
 
-theorem load_closed (flags : Nat) (h : Hdr) (skip : Bool) (f : Option Bytes) (buffer : Bytes)
+/-- **Whole function, any delivery**: the pass-by-pass model on a stream whose reads deliver `limit`
+    bytes equals the closed form `Spec.loadS`. -/
+theorem loadS_closed (flags : Nat) (h : Hdr) (skip : Bool) (f : Option Bytes) (limit : Nat) (buffer : Bytes)
     (hbuf : BufferOk flags h buffer) :
-    load flags h skip f buffer = Spec.load flags h skip f buffer := by
-  unfold load Spec.load
+    loadS flags h skip f limit buffer = Spec.loadS flags h skip f limit buffer := by
+  unfold loadS Spec.loadS
   by_cases hA : fl flags SAMPLE_FLAG_ADLIB = true
   · simp [hA]
   by_cases hL : h.len ≤ 0
@@ -984,7 +1060,7 @@ theorem load_closed (flags : Nat) (h : Hdr) (skip : Bool) (f : Option Bytes) (bu
   · simp only [hN, if_true, Bool.not_true, Bool.false_eq_true, false_and, if_false, true_or]
     have hb := hbuf hN
     simp only [Int.toNat_natCast, hi, hs] at hb
-    rw [loadCore_closed flags _ is16 stereo n _ buffer _ 0 (readDest_noload _ _ _ _ hN) (by simp; omega)]
+    rw [loadCoreS_closed flags _ is16 stereo n _ _ buffer _ 0 (readDestS_noload _ _ _ _ _ hN) (by simp; omega)]
     simp only [Nat.mul_div_cancel _ hflpos, specHdr]
   · have hN' : fl flags SAMPLE_FLAG_NOLOAD = false := by simpa using hN
     simp only [hN', Bool.false_eq_true, if_false, Bool.not_false, true_and, false_or]
@@ -1007,9 +1083,12 @@ theorem load_closed (flags : Nat) (h : Hdr) (skip : Bool) (f : Option Bytes) (bu
           simp only [if_true] at hle
           obtain ⟨k, rfl⟩ : ∃ k, b = k * frameLen is16 stereo := ⟨_, hmul.symm⟩
           rw [Nat.mul_div_cancel _ hflpos]
-          rw [loadCore_closed flags _ is16 stereo k av buffer _ _
-            (readDest_adpcm _ _ _ _ hN' ha (by omega) (by omega)) (by simp [Spec.adpcm])]
-          simp only [specHdr, if_true]
+          by_cases hlim : limit < 16 + (k * frameLen is16 stereo + 1) / 2
+          · rw [loadCoreS_error _ _ _ _ _ _ _ _ _ (readDestS_adpcm_short _ _ _ _ _ hN' ha hlim)]
+            simp only [hlim, if_true]
+          · rw [loadCoreS_closed flags _ is16 stereo k av limit buffer _ _
+              (readDestS_adpcm _ _ _ _ _ hN' ha (by omega) (by omega) (by omega)) (by simp [Spec.adpcm])]
+            simp only [specHdr, if_true, hlim, if_false]
       · have ha' : fl flags SAMPLE_FLAG_ADPCM = false := by simpa using ha
         have hcond : ¬ (av.length = 0 ∨ fl flags SAMPLE_FLAG_ADPCM = true ∧ av.length < 16) := by
           simp [ha', hz]
@@ -1021,9 +1100,51 @@ theorem load_closed (flags : Nat) (h : Hdr) (skip : Bool) (f : Option Bytes) (bu
         simp only [Bool.false_eq_true, if_false] at hle
         obtain ⟨k, rfl⟩ : ∃ k, b = k * frameLen is16 stereo := ⟨_, hmul.symm⟩
         rw [Nat.mul_div_cancel _ hflpos]
-        rw [loadCore_closed flags _ is16 stereo k av buffer _ _
-          (readDest_plain _ _ _ _ hN' ha' hle) (by simp; omega)]
+        rw [loadCoreS_closed flags _ is16 stereo k av limit buffer _ _
+          (readDestS_plain _ _ _ _ _ hN' ha' hle) (by simp [Spec.shortRaw])]
         simp only [specHdr, if_false, Bool.false_eq_true]
+
+/-- when every promised byte is delivered the general closed form is the plain one -/
+theorem spec_loadS_full (flags : Nat) (h : Hdr) (skip : Bool) (f : Option Bytes) (limit : Nat) (buffer : Bytes)
+    (hlim : (f.getD []).length ≤ limit) :
+    Spec.loadS flags h skip f limit buffer = Spec.load flags h skip f buffer := by
+  unfold Spec.loadS Spec.load
+  simp only
+  split
+  · rfl
+  · split
+    · rfl
+    · split
+      · rfl
+      · rename_i c1 c2 c3
+        generalize hi : sf h.flg XMP_SAMPLE_16BIT = is16 at *
+        generalize hs : sf h.flg XMP_SAMPLE_STEREO = stereo at *
+        generalize hav : (f.getD []).length = avail at *
+        by_cases hN : fl flags SAMPLE_FLAG_NOLOAD = true
+        · simp [hN]
+        · have hN' : fl flags SAMPLE_FLAG_NOLOAD = false := by simpa using hN
+          simp only [hN', Bool.not_false, true_and, Bool.false_eq_true, if_false, false_or] at c3 ⊢
+          by_cases ha : fl flags SAMPLE_FLAG_ADPCM = true
+          · have hle := effBytes_le true (frameLen is16 stereo) (h.len.toNat * frameLen is16 stereo) avail
+            simp only [if_true] at hle
+            have h16 : ¬ avail < 16 := by
+              intro hc; exact c3 (Or.inr (Or.inr ⟨ha, hc⟩))
+            have : ¬ limit < 16 + (Spec.effBytes true (frameLen is16 stereo) (h.len.toNat * frameLen is16 stereo) avail + 1) / 2 := by
+              omega
+            simp only [ha, true_and, this, if_false, if_true]
+          · have ha' : fl flags SAMPLE_FLAG_ADPCM = false := by simpa using ha
+            have hle := effBytes_le false (frameLen is16 stereo) (h.len.toNat * frameLen is16 stereo) avail
+            simp only [Bool.false_eq_true, if_false] at hle
+            simp only [ha', Bool.false_eq_true, false_and, if_false]
+            have hm : min (Spec.effBytes false (frameLen is16 stereo) (h.len.toNat * frameLen is16 stereo) avail) limit
+                = Spec.effBytes false (frameLen is16 stereo) (h.len.toNat * frameLen is16 stereo) avail := by omega
+            rw [hm, shortRaw_full _ _ _ (by rw [hav]; exact hle) (Nat.le_refl _)]
+
+theorem load_closed (flags : Nat) (h : Hdr) (skip : Bool) (f : Option Bytes) (buffer : Bytes)
+    (hbuf : BufferOk flags h buffer) :
+    load flags h skip f buffer = Spec.load flags h skip f buffer := by
+  unfold load
+  rw [loadS_closed flags h skip f _ buffer hbuf, spec_loadS_full flags h skip f _ buffer (Nat.le_refl _)]
 
 /-! ### flag-bit algebra -/
 
@@ -1234,5 +1355,55 @@ theorem spec_load_skips (flags : Nat) (h : Hdr) (skip : Bool) (f : Option Bytes)
           · exact Or.inr (Or.inl hs)
           · exact Or.inl hs
           · exact Or.inr (Or.inr hs)
+
+/-- shape of the general closed form for a plain (non-NOLOAD, non-ADPCM) stream sample -/
+theorem spec_loadS_plain (flags : Nat) (h : Hdr) (skip : Bool) (f : Option Bytes) (limit : Nat) (buffer : Bytes)
+    (hN : fl flags SAMPLE_FLAG_NOLOAD = false) (hA : fl flags SAMPLE_FLAG_ADPCM = false)
+    (hs : ¬ Skips flags h skip f) :
+    Spec.loadS flags h skip f limit buffer =
+      .ok (specHdr flags h (outLen flags h f))
+          (Spec.withGuards (frameLenOf h) (Spec.pcm flags (is16Of h) (stereoOf h) (outLen flags h f)
+            (Spec.shortRaw (f.getD []) (outBytes flags h f) (min (outBytes flags h f) limit))))
+          (min (outBytes flags h f) limit) := by
+  unfold Skips at hs
+  simp only [not_or, not_and] at hs
+  obtain ⟨h1, h2, h3, h4, h5⟩ := hs
+  unfold Spec.loadS
+  have c1 : ¬ (fl flags SAMPLE_FLAG_ADLIB = true ∨ h.len ≤ 0) := by simp [h1, h2]
+  have c2 : ¬ (h.len > (MAX_SAMPLE_SIZE : Int) ∨ skip = true) := by simp [h3, h4]
+  rw [if_neg c1, if_neg c2]
+  obtain ⟨g1, g2, _⟩ := h5 hN
+  have c3 : ¬ ((!fl flags SAMPLE_FLAG_NOLOAD) = true ∧ ((f.getD []).length = 0 ∨ f.isNone = true ∨
+      fl flags SAMPLE_FLAG_ADPCM = true ∧ (f.getD []).length < 16)) := by
+    simp only [avail] at g2
+    simp [hN, hA, g1, g2]
+  rw [if_neg c3]
+  simp [hN, hA, specHdr, outLen, outBytes, frameLenOf, is16Of, stereoOf, avail]
+
+/-- shape of the general closed form for an ADPCM stream sample: all or nothing -/
+theorem spec_loadS_adpcm (flags : Nat) (h : Hdr) (skip : Bool) (f : Option Bytes) (limit : Nat) (buffer : Bytes)
+    (hN : fl flags SAMPLE_FLAG_NOLOAD = false) (hA : fl flags SAMPLE_FLAG_ADPCM = true)
+    (hs : ¬ Skips flags h skip f) :
+    Spec.loadS flags h skip f limit buffer =
+      if limit < consumedBytes flags h f then .error else Spec.load flags h skip f buffer := by
+  rw [spec_load_ok flags h skip f buffer hs]
+  unfold Skips at hs
+  simp only [not_or, not_and] at hs
+  obtain ⟨h1, h2, h3, h4, h5⟩ := hs
+  unfold Spec.loadS
+  have c1 : ¬ (fl flags SAMPLE_FLAG_ADLIB = true ∨ h.len ≤ 0) := by simp [h1, h2]
+  have c2 : ¬ (h.len > (MAX_SAMPLE_SIZE : Int) ∨ skip = true) := by simp [h3, h4]
+  rw [if_neg c1, if_neg c2]
+  obtain ⟨g1, g2, g3⟩ := h5 hN
+  have c3 : ¬ ((!fl flags SAMPLE_FLAG_NOLOAD) = true ∧ ((f.getD []).length = 0 ∨ f.isNone = true ∨
+      fl flags SAMPLE_FLAG_ADPCM = true ∧ (f.getD []).length < 16)) := by
+    simp only [avail] at g2 g3
+    simp [hN, g1, g2]; intro ha; have := g3 ha; omega
+  rw [if_neg c3]
+  simp only [hN, hA, consumedBytes, outBytes, frameLenOf, is16Of, stereoOf, avail, Bool.false_eq_true, if_false, if_true,
+    Bool.not_false, true_and]
+  split
+  · rfl
+  · simp [hN, hA, specHdr, outLen, outBytes, srcRaw, frameLenOf, is16Of, stereoOf, avail]
 
 end Xmp.Sample
